@@ -110,6 +110,8 @@ func Load(cfg LoadConfig, overlay map[string][]byte) (*Loaded, error) {
 		SolverKind:     SolverZ3New,
 		TimeoutMs:      10000,
 	}
+	Sigma()
+	e.Prelude = C19Prelude()
 	EnvStubs(e.Stubs)
 	StageStubs(e.Stubs)
 	return &Loaded{Engine: e, Pkgs: pkgs, SSA: m}, nil
